@@ -51,8 +51,8 @@ def jobs(tier):
         {"name": "arith", "n": 20000 if q else 200000, "eop": "real"},
         {"name": "order", "n": 20000 if q else 200000, "eop": "real"},
         {"name": "range", "n": 10000 if q else 100000, "eop": "real"},
-        {"name": "policy-notables", "n": 60 if q else 600, "eop": "zero", "shards": 1},
-        {"name": "policy-outside", "n": 60 if q else 600, "eop": "real", "shards": 1},
+        {"name": "policy-notables", "n": 120 if q else 1200, "eop": "zero", "shards": 1},
+        {"name": "policy-outside", "n": 120 if q else 1200, "eop": "real", "shards": 1},
     ]
 
 
@@ -481,12 +481,17 @@ def case_policy(ctx, job, idx, rng, st):
 
     notables = job["name"] == "policy-notables"
     policy = ["pass", "warning", "error", "bogus-policy"][idx % 4]
+    # the four policies are applied in turn (idx % 4) to dates of the SAME calendar day (idx // 4 selects the day):
+    # a lookup must consult the policy every time, whatever was looked up before in this process
+    import random as _random
+
+    grp = _random.Random(f"{ctx.seed}:policy-day:{idx // 4}")
     if notables:
-        mjd = rng.uniform(41684, 57802)
+        mjd = grp.randint(41684, 57802) + rng.random()
         covered = False
     else:
-        where = rng.choice(["before", "after", "inside"])
-        mjd = {"before": rng.uniform(30000, 41680), "after": rng.uniform(57810, 70000), "inside": rng.uniform(41690, 57800)}[where]
+        where = grp.choice(["before", "after", "inside"])
+        mjd = {"before": grp.randint(30000, 41680), "after": grp.randint(57810, 70000), "inside": grp.randint(41690, 57800)}[where] + rng.random()
         covered = where == "inside"
     scale = rng.choice(ts.SCALES)
     config.set("eop", "missing_policy", policy)
